@@ -195,8 +195,17 @@ class Ranger:
             return None
         body = H.strip(fn["hir"])
         n_nodes = sum(1 for _ in H.walk(body))
-        if n_nodes > 2500 or any(H.tag(x) in ("for", "while", "loop", "ret") for x in H.walk(body)):
+        if n_nodes <= 2500 and any(H.tag(x) in ("for", "while", "loop") for x in H.walk(body)) and not any(H.tag(x) == "ret" for x in H.walk(body)):
+            return self.summary_range(fn, args, env, at)
+        if n_nodes > 2500 or any(H.tag(x) in ("for", "while", "loop") for x in H.walk(body)):
             return None
+        # early returns are followed only in the form `if c { return e; }` as a statement of the function's outermost block
+        n_ret = sum(1 for x in H.walk(body) if H.tag(x) == "ret")
+        if n_ret:
+            top = [H.strip(st[1]) for st in (body[1] if H.tag(body) == "block" else []) if st[0] in ("semi", "expr")]
+            plain = [g for g in top if H.tag(g) == "if" and g[3] is None and self._ret_of(g[2]) is not None]
+            if len(plain) != n_ret:
+                return None
         e2 = Env()
         for p, a in zip(fn["params"], args):
             if H.tag(p) != "bind":
@@ -223,8 +232,65 @@ class Ranger:
             self.mutated, self.param_range, self.param_field_range = saved
         tr = ty_range(fn.get("output") or "")
         if r is not None and tr is not None and not (tr[0] <= r[0] and r[1] <= tr[1]):
+            # a value of the output type lies within the type (an overflow inside the helper is a panic site of the helper itself)
+            if r[0] <= tr[1] and tr[0] <= r[1]:
+                return (max(r[0], tr[0]), min(r[1], tr[1]))
             return None
         return r
+
+    def summary_range(self, fn, args, env, at):
+        """range of the value of a helper with loops: its body is walked flow-sensitively (loop counters, accumulators) with the parameters
+        bound to the ranges of the arguments; the value is the tail of the body where the body ends"""
+        body = H.strip(fn["hir"])
+        if H.tag(body) != "block" or body[2] is None or self.depth > 30:
+            return None
+        key = (fn["path"], tuple(self.rng(a, env, at) for a in args))
+        memo = self.__dict__.setdefault("_summaries", {})
+        if key in memo:
+            return memo[key]
+        memo[key] = None
+        e2 = Env()
+        for p, a, r in zip(fn["params"], args, key[1]):
+            if H.tag(p) != "bind":
+                return None
+            if r is not None:
+                e2.set(p[1], ("range", r[0], r[1]), 0)
+            else:
+                e2.set(p[1], ("type", p[4]), 0)
+        saved = (self.mutated, self.param_range, self.param_field_range, self.grown)
+        self.mutated, self.param_range, self.param_field_range, self.grown = mutated_names(body), (lambda name: None), None, grown_names(body)
+        try:
+            self.depth += 1
+            w = Walker(self, None)
+            w.walk(body, e2)
+            r = w.block_tail.get(id(body))
+        finally:
+            self.depth -= 1
+            self.mutated, self.param_range, self.param_field_range, self.grown = saved
+        tr = ty_range(fn.get("output") or "")
+        if r is not None and tr is not None:
+            if r[0] <= tr[1] and tr[0] <= r[1]:
+                r = (max(r[0], tr[0]), min(r[1], tr[1]))
+            else:
+                r = None
+        memo[key] = r
+        return r
+
+    @staticmethod
+    def _ret_of(blk):
+        """the expression e of a block that is just `return e;` / `return e`, else None"""
+        b = H.strip(blk)
+        if H.tag(b) == "ret":
+            return b[1] if len(b) > 1 else None
+        if H.tag(b) == "block":
+            sts = [st for st in b[1] if st[0] != "item"]
+            if len(sts) == 1 and b[2] is None and sts[0][0] in ("semi", "expr") and H.tag(H.strip(sts[0][1])) == "ret":
+                r = H.strip(sts[0][1])
+                return r[1] if len(r) > 1 else None
+            if not sts and b[2] is not None and H.tag(H.strip(b[2])) == "ret":
+                r = H.strip(b[2])
+                return r[1] if len(r) > 1 else None
+        return None
 
     def resolve_ref(self, ref):
         """-> ("ref"|"inv", lo, hi) or None for a recorded fact, evaluating a condition recorded by Walker.refine on first use"""
@@ -285,6 +351,9 @@ class Ranger:
             if r is None:
                 return tr
             if tr is not None and not (tr[0] <= r[0] and r[1] <= tr[1]):
+                # a value of the type lies within the type (leaving it is a panic site of the initialiser itself)
+                if r[0] <= tr[1] and tr[0] <= r[1]:
+                    return (max(r[0], tr[0]), min(r[1], tr[1]))
                 return tr
             return r
         if b[0] == "param":
@@ -313,6 +382,11 @@ class Ranger:
             return r
         if t == "path":
             c = self.consts(n[1])
+            if c is None:
+                m = re.search(r"<impl ([iu](?:8|16|32|64|128|size))>::(MAX|MIN)$", n[1])
+                if m:
+                    tr = ty_range(m.group(1))
+                    c = tr[1] if m.group(2) == "MAX" else tr[0]
             return (c, c) if c is not None else None
         if t in ("ref", "refmut"):
             return self.rng(n[1], env, at)
@@ -430,10 +504,22 @@ class Ranger:
                 return self.rng(n[2], env, at)
             e2 = env.child()
             seq = at if at is not None else 0
+            rets = []
             for s in n[1]:
                 if s[0] == "let" and H.tag(s[1]) == "bind" and s[2] is not None:
                     e2.set(s[1][1], ("expr", s[2], e2, s[1][4], seq), seq)
-            return self.rng(n[2], e2, at) if n[2] is not None else None
+                elif s[0] in ("semi", "expr"):
+                    g = H.strip(s[1])
+                    if H.tag(g) == "if" and g[3] is None and self._ret_of(g[2]) is not None:
+                        # `if c { return e; }`: e is one of the values of the enclosing function body (the condition is not used)
+                        rr = self.rng(self._ret_of(g[2]), e2, at)
+                        if rr is None:
+                            return None
+                        rets.append(rr)
+            out = self.rng(n[2], e2, at) if n[2] is not None else None
+            for rr in rets:
+                out = union(out, rr)
+            return out
         if t == "field":
             base = H.strip_refs(n[1])
             if H.tag(base) == "local" and self.param_field_range is not None:
@@ -504,6 +590,17 @@ class Ranger:
                 first = False
             return out
         return None
+
+
+def subst_local(n, old, new):
+    """the tree with every use of local `old` replaced by local `new`"""
+    if isinstance(n, list):
+        if len(n) >= 2 and n[0] == "local" and n[1] == old:
+            return ["local", new] + n[2:]
+        return [subst_local(c, old, new) for c in n]
+    if isinstance(n, tuple):
+        return tuple(subst_local(c, old, new) for c in n)
+    return n
 
 
 def mutated_names(hir):
@@ -630,6 +727,7 @@ class Walker:
         self.last_assign = {}
         self.block_tail = {}
         self._keep = []
+        self.counter_loops = set()  # ids of `while` loops with a recognised counter (they terminate)
 
     def bind_let(self, st, env):
         self.seq += 1
@@ -639,7 +737,7 @@ class Walker:
                 env.set(pat[1], ("expr", st[2], env, pat[4], self.seq - 1), self.seq)
                 init = H.strip(st[2])
                 r0 = None
-                if H.tag(init) == "block" and init[1]:
+                if (H.tag(init) == "block" and init[1]) or H.tag(init) == "match":
                     r0 = self.block_tail.get(id(init))
                 elif pat[1] in self.r.mutated:
                     # a local that is changed later: what its initialiser says holds until the first change (assigned() transfers or kills it)
@@ -882,6 +980,34 @@ class Walker:
             return here
         return count(body, False)
 
+    def update_nodes(self, body, name):
+        """the right-hand sides e of the updates `name += e` when these are the only changes of `name` in body and none of them stands in
+        an inner loop or closure; else None"""
+        out = []
+
+        def go(n, nested):
+            t = H.tag(n)
+            if t is None:
+                if isinstance(n, list):
+                    for c in n:
+                        if isinstance(c, list) and not go(c, nested):
+                            return False
+                return True
+            if t == "asg" and H.local_name(H.strip(n[1])) == name:
+                return False
+            if t == "refmut" and H.local_name(H.strip(n[1])) == name:
+                return False
+            if t == "asgop" and H.local_name(H.strip(n[4])) == name:
+                if n[2] != "AddAssign" or nested:
+                    return False
+                out.append(n[5])
+            nested2 = nested or t in ("for", "while", "loop", "closure")
+            for c in n[1:]:
+                if isinstance(c, list) and not go(c, nested2):
+                    return False
+            return True
+        return out if go(body, False) and out else None
+
     def init_range(self, name, env):
         """range of a local where a loop starts (its initialiser or a recorded fact), ignoring later mutation"""
         ref = self.r.resolve_ref(env.get("#ref:" + name, self.seq))
@@ -1058,11 +1184,14 @@ class Walker:
             return
         if t in ("while", "loop"):
             counters = {}
+            trips = None
             if t == "while":
-                # counter induction: `while x != K` / `while x < K` where the body changes x only by `x += c`
+                # counter induction: `while x != K` / `while x < K` / `while x <= K` where the body changes x only by `x += c` (c >= 1) and K is
+                # a constant or (for < and <=) an expression the loop does not change, with a known upper bound
                 conj = [H.strip(n[1])]
                 while any(H.tag(x) == "bin" and x[2] == "And" for x in conj):
                     conj = [H.strip(y) for x in conj for y in ((x[4], x[5]) if H.tag(x) == "bin" and x[2] == "And" else (x,))]
+                changed = mutated_names(n[2]) | grown_names(n[2])
                 for c in conj:
                     if not (H.tag(c) == "bin" and c[2] in ("Ne", "Lt", "Le")):
                         continue
@@ -1070,10 +1199,22 @@ class Walker:
                     kr = self.r.rng(c[5], env, self.seq)
                     ups = self.updates_of(n[2], nm) if nm else None
                     ir = self.init_range(nm, env) if ups else None
-                    if ups and ir is not None and kr is not None and kr[0] == kr[1] and len(ups) == 1 and ups[0] >= 1:
-                        K = kr[0] + (1 if c[2] == "Le" else 0)
-                        if ir[1] <= K and (c[2] != "Ne" or ups[0] == 1):
-                            counters[nm] = (ir[0], K - 1, K - 1 + ups[0])
+                    invariant_bound = not any(H.tag(y) == "local" and y[1] in changed for y in H.walk(c[5])) and not any(H.tag(y) in ("call", "mcall") for y in H.walk(c[5]))
+                    if ups and ir is not None and kr is not None and len(ups) == 1 and ups[0] >= 1 and (kr[0] == kr[1] or (c[2] != "Ne" and invariant_bound)):
+                        K = kr[1] + (1 if c[2] == "Le" else 0)
+                        if (ir[1] <= K or c[2] != "Ne") and (c[2] != "Ne" or ups[0] == 1):
+                            counters[nm] = (ir[0], max(K - 1, ir[0]), max(K - 1 + ups[0], ir[1]))
+                            t_ = max(0, -(-(K - ir[0]) // ups[0]))
+                            trips = t_ if trips is None else min(trips, t_)
+                            self.counter_loops.add(id(n))
+                            self._keep.append(n)
+            accs = {}
+            if trips is not None:
+                # other locals the body only adds non-negative amounts to: bounded by the number of iterations
+                for nm in sorted(mutated_names(n[2]) - set(counters)):
+                    ir = self.init_range(nm, env)
+                    if ir is not None and self.update_nodes(n[2], nm) is not None:
+                        accs[nm] = ir
             self.loop_entry(n, env)
             e2 = env.child()
             if t == "while":
@@ -1082,12 +1223,31 @@ class Walker:
             for nm, (lo_, hi_in, hi_after) in counters.items():
                 self.seq += 1
                 e2.set("#ref:" + nm, ("ref", lo_, hi_in), self.seq)
+            acc_after = {}
+            for nm, ir in accs.items():
+                tot = 0
+                okk = True
+                for e_ in self.update_nodes(n[2], nm):
+                    r_ = self.r.rng(e_, e2, self.seq)
+                    if r_ is None or r_[0] < 0:
+                        okk = False
+                        break
+                    tot += r_[1]
+                if okk:
+                    acc_after[nm] = (ir[0], ir[1] + trips * tot)
+                    self.seq += 1
+                    e2.set("#ref:" + nm, ("inv", ir[0], ir[1] + trips * tot), self.seq)
             self.walk(n[2], e2, loops + (n,))
             for nm, (lo_, hi_in, hi_after) in counters.items():
                 self.seq += 1
                 env.kill("#ref:" + nm, self.seq)
                 self.seq += 1
                 env.set("#ref:" + nm, ("ref", lo_, hi_after), self.seq)
+            for nm, (lo_, hi_) in acc_after.items():
+                self.seq += 1
+                env.kill("#ref:" + nm, self.seq)
+                self.seq += 1
+                env.set("#ref:" + nm, ("ref", lo_, hi_), self.seq)
             return
         if t == "closure":
             # a closure may run any number of times, later: what it changes is unknown from here on, inside it and after it
@@ -1104,19 +1264,26 @@ class Walker:
             self.walk(n[1], env, loops)
             sr = self.r.rng(n[1], env, self.seq)
             seen_lits = []
+            sloc = self.local_of(n[1])  # the local the scrutinee is a value-preserving view of
+            env = env.child()  # what the arms passed so far have excluded accumulates here
+            val, val_ok = None, True
             for pat, guard, body in n[3]:
                 e2 = env.child()
                 self.seq += 1
+                same = H.tag(pat) == "bind" and pat[5] is None and sloc and sloc not in self.r.mutated and pat[1] == sloc
                 for q in H.walk(pat):
-                    if H.tag(q) == "bind":
+                    if H.tag(q) == "bind" and not same:
                         e2.set(q[1], ("type", q[4]), self.seq)
+                if H.tag(pat) == "bind" and pat[5] is None and sloc and sloc not in self.r.mutated and pat[1] != sloc:
+                    # `x => ..` / `x if g => ..`: x is the scrutinee
+                    e2.set(pat[1], ("expr", ["local", sloc], env, pat[4], self.seq), self.seq)
                 pr = self.pat_range(pat)
                 if sr is not None and pr is not None and (pr[1] < sr[0] or pr[0] > sr[1]):
                     # no value of the scrutinee matches this arm: what stands in it is never executed
                     e2.set("#dead", ("dead-arm", f"the scrutinee {H.short(n[1], maxlen=60)} is within {sr}, the arm matches {pr}"), self.seq)
                 if H.tag(pat) == "lit" and pat[1] == "int" and guard is None:
                     seen_lits.append(int(pat[2]))
-                elif H.tag(pat) == "bind" and pat[5] is None and sr is not None:
+                elif H.tag(pat) == "bind" and pat[5] is None and sr is not None and not same and not (sloc and sloc not in self.r.mutated):
                     # `v => ..` after literal arms: the scrutinee's range without the literals already matched at its ends
                     lo_, hi_ = sr
                     while lo_ in seen_lits:
@@ -1127,7 +1294,30 @@ class Walker:
                         e2.set(pat[1], ("range", lo_, hi_), self.seq)
                 if guard is not None:
                     self.walk(guard, e2, loops)
+                    self.refine(guard, e2, True)
                 self.walk(body, e2, loops)
+                if not diverges(body):
+                    r_ = self.r.rng(body, e2, self.seq)
+                    if r_ is None:
+                        val_ok = False
+                    else:
+                        val = r_ if val is None else union(val, r_)
+                if H.tag(pat) == "bind" and pat[5] is None and guard is not None and sloc and sloc not in self.r.mutated:
+                    # `x if g => ..`: the later arms are reached only when g is false (about the scrutinee)
+                    self.refine(subst_local(guard, pat[1], sloc) if pat[1] != sloc else guard, env, False)
+                elif guard is None and sloc and sloc not in self.r.mutated:
+                    # a literal / range pattern at an end of the scrutinee's range: the later arms see the rest
+                    pr_ = self.pat_range(pat)
+                    cur = self.r.rng(["local", sloc], env, self.seq)
+                    if pr_ is not None and cur is not None and pr_[0] <= cur[0] <= pr_[1] < cur[1]:
+                        self.seq += 1
+                        env.set("#ref:" + sloc, ("ref", pr_[1] + 1, cur[1]), self.seq)
+                    elif pr_ is not None and cur is not None and cur[0] < pr_[0] <= cur[1] <= pr_[1]:
+                        self.seq += 1
+                        env.set("#ref:" + sloc, ("ref", cur[0], pr_[0] - 1), self.seq)
+            if val_ok and val is not None:
+                self.block_tail[id(n)] = val
+                self._keep.append(n)
             return
         if t == "if":
             c = H.strip(n[1])
